@@ -56,7 +56,7 @@ def run_roundtrip(tests, use_times, tagmode, time_tokens):
         conv.tags({"g"}, set())
     objs = []
     for n, t in enumerate(tests):
-        test = PlaceHolder("tést-%d" % n)
+        test = PlaceHolder(t.get("id") or "tést-%d" % n)
         objs.append(test)
         if use_times:
             conv.time(time_tokens[2 * n])
@@ -94,6 +94,15 @@ def run_roundtrip(tests, use_times, tagmode, time_tokens):
         tid = objs[n].id()
         tags = ({"g"} if tagmode & 1 else set()) | ({"l%d" % n} if tagmode & 2 else set())
         mine = [e for e in evs if e.test_id == tid]
+        sharing = [m for m in range(len(tests)) if objs[m].id() == tid]
+        if len(sharing) > 1:
+            # the same id reported more than once in this run: the k-th report's events run from its k-th 'inprogress' event
+            starts = [i for i, e in enumerate(mine) if e.test_status == "inprogress" and e.file_name is None]
+            k = sharing.index(n)
+            if len(starts) != len(sharing):
+                problems.append("test %d: %d 'inprogress' events for %d reports of id %s" % (n, len(starts), len(sharing), tid))
+                continue
+            mine = mine[starts[k]:(starts[k + 1] if k + 1 < len(starts) else len(mine))]
         if not mine or mine[0].test_status != "inprogress" or mine[0].file_name is not None:
             problems.append("test %d: no 'inprogress' event first" % n)
             continue
@@ -239,7 +248,7 @@ def h_one(o: int, form: int, nd: int, ct0: int, nc0: int, ct1: int, nc1: int, b0
 
 
 def h_two(o0: int, o1: int, form: int, ct0: int, nc0: int, ct1: int, nc1: int, b0: bytes, b1: bytes, b3: bytes,
-          b4: bytes, use_times: bool, tagmode: int, t0: int, t1: int, t2: int, t3: int) -> bool:
+          b4: bytes, use_times: bool, tagmode: int, t0: int, t1: int, t2: int, t3: int, same_id: bool = False) -> bool:
     """
     pre: 0 <= o0 < 6 and 0 <= o1 < 6 and 0 <= form < 2 and 0 <= ct0 < 5 and 0 <= ct1 < 5 and 0 <= nc0 < 3 and 0 <= nc1 < 3
     pre: len(b0) <= 1 and len(b1) <= 1 and len(b3) <= 1 and len(b4) <= 1 and 0 <= tagmode < 4
@@ -257,13 +266,15 @@ def h_two(o0: int, o1: int, form: int, ct0: int, nc0: int, ct1: int, nc1: int, b
             d0 = d1 = []
         ut = ch.cbool(use_times)
         tm = ch.sel("tagmode", tagmode, 4)
+        # the same test id reported twice in one run (e.g. a re-run); explored without explicit times only (cost)
+        sid = ch.cbool(same_id) if (fm == 1 and not ut) else False
     except ch.Prune:
         return True
-    v.update(use_times=ut, tagmode=tm)
+    v.update(use_times=ut, tagmode=tm, same_id=sid)
     tests = []
     for oi, det in ((a, d0), (b, d1)):
         tests.append(dict(outcome=OUTCOMES[oi], form="details" if fm == 1 else ("exc" if OUTCOMES[oi] in ("failure", "error", "xfail") else "plain"),
-                          details=det, reason=REASONS[0]))
+                          details=det, reason=REASONS[0], id="tést-same" if sid else None))
     res = run_roundtrip(tests, ut, tm, [ch.V(t0), ch.V(t1), ch.V(t2), ch.V(t3)])
     ch.LAST.update(res)
     return ch.finish(not res["problems"], v, nontrivial=True, sym=("chunk bytes", "time tokens"))
@@ -301,8 +312,8 @@ HARNESSES = [
                     "thorough": "two details with every pair of content types, all name rotations and tag modes"},
             rule="every path non-trivial", sym=("b0..b5", "t0", "t1"), twin_fix={"form": 0}),
     Harness("two", h_two, _two_shards,
-            bounds={"quick": "two tests: every pair of outcomes, exc_info/plain forms with all tag modes, details form (one detail each, "
-                             "0..2 chunks, 4 content types) with tags on",
+            bounds={"quick": "two tests: every pair of outcomes, exc_info/plain forms with all tag modes, details form (one detail each under the "
+                             "same name, 0..2 chunks, 4 content types; distinct test ids or the same id reported twice) with tags on",
                     "thorough": "details form with all tag modes"},
             rule="every path non-trivial", sym=("b0", "b1", "b3", "b4", "t0..t3"), twin_fix={"form": 0}),
 ]
